@@ -10,8 +10,8 @@ import (
 // RaceEnabled reports whether the binary was built with -race.
 const RaceEnabled = true
 
-func raceDisable()                    { runtime.RaceDisable() }
-func raceEnable()                     { runtime.RaceEnable() }
-func raceAcquire(p unsafe.Pointer)    { runtime.RaceAcquire(p) }
-func raceRelease(p unsafe.Pointer)    { runtime.RaceRelease(p) }
+func raceDisable()                      { runtime.RaceDisable() }
+func raceEnable()                       { runtime.RaceEnable() }
+func raceAcquire(p unsafe.Pointer)      { runtime.RaceAcquire(p) }
+func raceRelease(p unsafe.Pointer)      { runtime.RaceRelease(p) }
 func raceReleaseMerge(p unsafe.Pointer) { runtime.RaceReleaseMerge(p) }
